@@ -51,14 +51,20 @@ def gen_dup(g, rng):
         w = 3 if kd in ("table", "schema", "setop", "aliasedq") else 1
         if kd == "term" and isinstance(v, g.L.terms.Not):
             w = 3
+        if g.k.get("autoalias") and any(d != i and is_object_slot(h[d]) and g.kind(h[d]) == "qb"
+                                        and lib.state(h[d]).get("alias") is None for d in lang.cone(g.program, i)):
+            w = 8  # a composite that holds a still un-aliased sub-query of the heap by reference
         cands.extend([i] * w)
     if not cands:
         return None
     i = cands[rng.randrange(len(cands))]
     src = lat.get(i, i)  # duplicate the current state of a mutable chain
-    r = rng.random() * sum(w for _, w in HOWS)
-    how = HOWS[-1][0]
-    for hh, w in HOWS:
+    # under recorded alias effects only the deep mechanisms are generated: a shallow copy shares what its original
+    # holds by reference, so an alias written into a shared sub-query rightly shows in both (nothing to decide there)
+    hows = [x for x in HOWS if x[0] != "copy"] if g.k.get("autoalias") else HOWS
+    r = rng.random() * sum(w for _, w in hows)
+    how = hows[-1][0]
+    for hh, w in hows:
         r -= w
         if r < 0:
             how = hh
@@ -75,6 +81,9 @@ def build(seed, run, overrides=None):
     knobs["mutable"] = rng.random() < 0.4
     knobs["p_dup"] = rng.choice([0.15, 0.25, 0.4])
     knobs["p_stmt"] = rng.choice([0.0, 0.3, 0.6])  # complete statements (upserts, UPDATE..JOIN, set operations) as roots
+    # un-aliased sub-queries of the heap in aliasing positions: the automatic alias written into a SHARED argument after
+    # a duplication must show in the original's holders and never in the duplicate (recorded as alias_fx, as in C01)
+    knobs["autoalias"] = (not knobs["mutable"]) and rng.random() < 0.4
     if overrides:
         knobs.update(overrides)
     env = lang.Env(share_tables=knobs["share_tables"])
@@ -82,13 +91,26 @@ def build(seed, run, overrides=None):
     discard = None
     ndup = 0
     hot = []  # both sides of recent duplication events: they stay live receivers
+    tag_next = None
     for _ in range(knobs["nops"]):
         i = None
-        if len(env.heap) >= 1 and rng.random() < knobs["p_dup"]:
+        if tag_next is not None:
+            # a new statement takes a still un-aliased sub-query, which the duplicated object holds by reference, as its
+            # FROM source: the library writes the automatic alias into that shared object
+            i = g.emit({"op": "new", "x": {"t": "meth", "x": {"t": "cls", "name": rng.choice(knobs["qcls"])}, "m": "from_",
+                                           "a": [{"t": "var", "i": tag_next}]}})
+            tag_next = None
+        if i is None and len(env.heap) >= 1 and rng.random() < knobs["p_dup"]:
             i = gen_dup(g, rng)
             if i is not None:
                 ndup += 1
                 hot = ([i, g.program[i]["o"]] + hot)[:6]
+                if knobs["autoalias"] and rng.random() < 0.6:
+                    subs = [d for d in lang.cone(g.program, g.program[i]["o"])
+                            if d != g.program[i]["o"] and is_object_slot(env.heap[d]) and g.kind(env.heap[d]) == "qb"
+                            and lib.state(env.heap[d]).get("alias") is None]
+                    if subs:
+                        tag_next = subs[rng.randrange(len(subs))]
         if i is None and hot and rng.random() < 0.4:
             # a builder call on the duplicate or on its original (the latest state of a mutable chain)
             lat = latest_alias(env.heap)
@@ -108,8 +130,8 @@ def build(seed, run, overrides=None):
         op = g.program[i]
         before = c01.alias_snapshot(env, op)
         env.heap.append(engine.exec_op(env, op))
-        if c01.alias_changed(env, before):
-            discard = "autoalias on a shared object"
+        discard = c01.record_alias_fx(env, op, before, knobs["autoalias"])
+        if discard:
             break
     return {"program": g.program, "knobs": knobs, "env": env, "gen": g, "discard": discard, "rng": rng, "ndup": ndup}
 
@@ -176,9 +198,15 @@ def one_run(seed, run, force_config=None, overrides=None, max_diag=3):
     if knobs["mutable"] and config == "thr":
         # concurrent in-place calls on a mutable-mode builder are the caller's race, not a library promise
         config = "seq"
+    if knobs.get("autoalias"):
+        # recorded alias effects are replayed at log positions, which only a sequential execution has (as in C01)
+        config = "seq"
+    if b["discard"] == "alias of an already aliased argument changed":
+        b["discard"] = None  # judged by the comparison itself
     okw = {"ctx_names": sorted(rng.sample(L.CTX_NAMES, 3))}
     st = knobs["share_tables"]
-    res = {"run": run, "config": config, "nops": len(program), "discard": b["discard"], "violations": [],
+    res = {"run": run, "config": config + ("+autoalias" if knobs.get("autoalias") else ""), "nops": len(program),
+           "discard": b["discard"], "violations": [],
            "not_c15": 0, "harness": [], "steps": 0, "switches": 0, "fired": {}, "overlap": 0, "n_cmp": 0,
            "shape": None, "nontrivial": False, "ndup": b["ndup"], "schedule_hash": None, "preempt_in_lib": 0,
            "hows": {}, "dup_kinds": {}, "mutable_objs": 0, "calls_after_dup": 0}
@@ -244,7 +272,10 @@ def one_run(seed, run, force_config=None, overrides=None, max_diag=3):
             p_id = with_identity_dups(program)
             env_i = engine.execute(p_id, share_tables=st)
             a_i = engine.slot_obs(env_i, victim, **okw)
-            if obs.diff(a_i, r):
+            # judged against the reference in which a duplicate IS its original (under recorded alias effects the
+            # ordinary reference gives the duplicate a life of its own, which the identity does not have)
+            r_i = engine.reference_obs(program, victim, st, dup_fresh=False, **okw)
+            if obs.diff(a_i, r_i):
                 res["not_c15"] += 1  # fails without any duplication: builder history (C01), not C15
                 continue
         env_s = engine.execute(program, share_tables=st)
@@ -318,7 +349,8 @@ def replay(payload):
 def restart_task(seed, run):
     """Pick one object of the run, pickle it; the child restores it, CONTINUES the op script and observes."""
     b = build(seed, run)
-    if b["discard"]:
+    if b["discard"] or b["knobs"].get("autoalias"):
+        # recorded alias effects belong to the one-process log order; the restart oracle keeps to runs without them
         return None
     program, env, rng, st = b["program"], b["env"], b["rng"], b["knobs"]["share_tables"]
     rr = random.Random(gen.derive_seed(seed, run, 0x5E57))
@@ -465,7 +497,7 @@ def replay_restart(payload):
 
 # ------------------------------------------------------------------ batch / evidence
 TIERS = {
-    "quick": {"runs": 12000, "chunk": 50, "wall_cap": 900, "restart_frac": 0.3, "hashseeds": [1]},
+    "quick": {"runs": 30000, "chunk": 50, "wall_cap": 900, "restart_frac": 0.3, "hashseeds": [1]},
     "thorough": {"runs": 150000, "chunk": 200, "wall_cap": 5400, "restart_frac": 0.5, "hashseeds": [1, 4242]},
 }
 
